@@ -473,6 +473,8 @@ class Lexer:
                         raise CklSyntaxError(
                             "Hex literal without digits", here
                         )
+                    if len(token) > 3500:
+                        raise CklSyntaxError("Hex literal too long", here)
                     token = str(int(token.replace("_", ""), 16))
                     self.tokens.append(Token(token, "int", here))
                     token = ""
@@ -492,6 +494,8 @@ class Lexer:
                         raise CklSyntaxError(
                             "Binary literal without digits", here
                         )
+                    if len(token) > 14000:
+                        raise CklSyntaxError("Binary literal too long", here)
                     self.tokens.append(
                         Token(str(int(token.replace("_", ""), 2)), "int", here)
                     )
